@@ -96,7 +96,10 @@ func (sc *sctx) wait(name string, pred func() bool, extra ...<-chan struct{}) bo
 // predicate must become true in every world in which the Conn keeps working
 // or shuts down; a leaked mutex makes it unsatisfiable, which is the point.
 func (sc *sctx) awaitSnap(name string, pred func(st rpc.VerifConnState) bool) {
-	sc.b.awaitCond("h2:"+name, func() bool {
+	sc.b.awaitCond("snap:"+name, func() bool {
+		if sc.disturbed() {
+			return true
+		}
 		st := sc.b.snapshot()
 		return st.Locked && (st.ShutdownDone || pred(st))
 	})
@@ -240,18 +243,22 @@ var scenarios = []scenario{
 	{"inpipeline", func(sc *sctx) {
 		p := sc.b.peer
 		sc.step("peer-bootstrap-and-pipelined-call")
-		qb := p.sendBootstrap()
+		qb := p.newManualQuestion()
+		p.send(mkBootstrap(qb))
 		qc := p.sendCallPromised(qb, nil, mEcho, 3)
 		sc.wait("pipelined-return", func() bool { return p.sawReturn(qb) != nil && p.sawReturn(qc) != nil })
+		p.sendFinish(qb)
 		p.mu.Lock()
 		exp, _ := exportFromReturn(p.sawReturn(qb))
 		p.mu.Unlock()
 		sc.step("peer-held-call-and-pipelined-call")
-		qh := p.sendCallExport(exp, mHold, 0, nil)
+		qh := p.newManualQuestion()
+		p.send(mkCall(qh, func(t rpccp.MessageTarget) { t.SetImportedCap(exp) }, ifaceID, mHold, 0, nil))
 		qp := p.sendCallPromised(qh, []uint16{0}, mEcho, 4)
 		sc.step("release-held")
 		sc.b.srv.releaseHeld()
 		sc.wait("held-returns", func() bool { return p.sawReturn(qh) != nil && p.sawReturn(qp) != nil })
+		p.sendFinish(qh)
 		sc.awaitSnap("answers-drained", func(st rpc.VerifConnState) bool { return st.Answers == 0 })
 	}},
 	{"release", func(sc *sctx) {
